@@ -100,7 +100,7 @@ def main():
   dst = os.path.join(VERIF, "seeded", f"{prop}-{name}")
   os.makedirs(dst, exist_ok=True)
   for f in ("patch.diff", "demo.py", "notes.txt"):
-    if os.path.exists(os.path.join(src, f)):
+    if os.path.exists(os.path.join(src, f)) and os.path.abspath(src) != os.path.abspath(dst):
       shutil.copy(os.path.join(src, f), os.path.join(dst, f))
   json.dump(meta, open(os.path.join(dst, "meta.json"), "w"), indent=1)
   print(json.dumps({k: meta[k] for k in ("property", "name", "confirmed", "demo_clean_rc", "demo_mutated_rc",
